@@ -149,7 +149,7 @@ func init() {
 		Race:       true,
 		MaxWorkers: 6,
 		CPUBudget:  120,
-		Rule: "rounds of G in {2, 8, 32(,128)} goroutines x GOMAXPROCS in {1, 2, 16}, every goroutine issuing 200 operations drawn (seeded) from 22 concrete calls on one loaded tree - String of a layout+component-in-loop page, a loop page, an object/dump page, two pages failing at run time, a missing name, a shuffle() page; Response ok/failing/missing (error page through the string API); EvaluateString ok/failing; EvaluateFile; loops that fail in a later pass after producing output; renders without any data that assign names at top level (as integer, string, boolean, object) next to one that reads the name and must fail - with goroutine-specific data otherwise; a registered custom function called from inside the templates yields or sleeps 50us on a seeded schedule. " +
+		Rule: "rounds of G in {2, 8, 32(,128)} goroutines x GOMAXPROCS in {1, 2, 16}, every goroutine issuing 200 operations drawn (seeded) from 22 concrete calls on one loaded tree - String of a layout+component-in-loop page, a loop page, an object/dump page, two pages failing at run time, a missing name, a shuffle() page; Response ok/failing/missing (error page through the string API); EvaluateString ok/failing; EvaluateFile; loops that fail in a later pass after producing output; renders without any data that assign names at top level (as integer, string, boolean, object) next to one that reads the name and must fail - with goroutine-specific data otherwise; a registered custom function called from inside the templates yields or sleeps 50us on a seeded schedule; every round also loads a tree without layouts and components right after a tree in another directory was used and makes its very first renders (failing ones included) concurrent. " +
 			"Oracles: the harness is built with the Go race detector (halt_on_error=0, log per process); after the rounds the log is parsed and every report with a frame inside the repository is a violation (de-duplicated by the pair of innermost repository frames); the recorded history (goroutine, operation, logical call/return stamps from one atomic counter, result) is checked offline against the stateless model: every result must equal what the same operation returned alone before the round (shuffle as a multiset). Evidence counts operations that overlapped an operation of a different kind. distinct_nontrivial = distinct (round, goroutine, operation) triples that overlapped another kind",
 		Assumptions: []string{
 			"only interleavings the scheduler produced; the race detector sees races between accesses that actually executed",
@@ -279,6 +279,7 @@ func init() {
 						}
 					}
 				}
+				freshLoadBurst(c, i)
 				c.Count("operations_in_histories", len(all))
 				c.Count("operations_overlapping_another_kind", overlapped)
 				if i < 4 {
@@ -341,6 +342,104 @@ func scanRaceLog(c *core.Ctx) {
 		}
 		c.Violation("race:"+key, "the race detector reported a data race: "+key, map[string]any{"report": clipS("WARNING: DATA RACE"+blk, 5000)})
 	}
+}
+
+// freshLoadBurst: a tree without layouts and components (loading it renders nothing and resolves no
+// other file) is loaded right after a tree in another directory was loaded and used, and its very
+// first renders - failing ones included - are concurrent. Baselines come from an earlier load of the
+// same directory.
+func freshLoadBurst(c *core.Ctx, round int) {
+	flat := map[string]string{
+		"ok.tw":      "flat {{ who }} @each(i in items){{ i }},@end",
+		"bad.tw":     "l1\nl2 {{ who }}\n{{ gid / zero }} never",
+		"sub/bad.tw": "s1\n{{ who.nofn() }}",
+	}
+	for _, d := range []string{"flat1", "flat2/views"} {
+		if err := writeFiles(d, flat); err != nil {
+			c.Inconclusive(err.Error())
+			return
+		}
+	}
+	type op struct {
+		name string
+		run  func(t *textwire.Template, d map[string]any) string
+	}
+	str := func(page string) func(t *textwire.Template, d map[string]any) string {
+		return func(t *textwire.Template, d map[string]any) string {
+			out, fe := t.String(page, d)
+			if fe != nil {
+				return fmtFail(out, fe.Message(), fe.Line(), fe.Filepath())
+			}
+			return "out=" + out
+		}
+	}
+	ops := []op{{"String(ok)", str("ok")}, {"String(bad)", str("bad")}, {"String(sub/bad)", str("sub/bad")}, {"String(missing)", str("nope")},
+		{"Response(bad)", func(t *textwire.Template, d map[string]any) string {
+			rec := newRecorder()
+			err := t.Response(rec, "bad", d)
+			return fmt.Sprintf("body=%s err=%v", rec.body.String(), err)
+		}}}
+	dataOf := func(g int) map[string]any {
+		return map[string]any{"gid": g, "who": fmt.Sprintf("f%d", g), "items": []int{g, g + 1}, "zero": 0}
+	}
+	load := func(dir string) *textwire.Template {
+		textwire.VerifResetConfig()
+		t, err := textwire.NewTemplate(&config.Config{TemplateDir: dir, TemplateExt: ".tw", DebugMode: round%2 == 0})
+		if err != nil {
+			c.Violation("concurrent:load-failed", err.Error(), nil)
+			return nil
+		}
+		return t
+	}
+	const G = 16
+	dirs := []string{"flat1", "flat2/views"}
+	mine, other := dirs[round%2], dirs[(round+1)%2]
+	base := load(mine)
+	if base == nil {
+		return
+	}
+	want := make([][]string, G)
+	for g := 0; g < G; g++ {
+		for _, o := range ops {
+			want[g] = append(want[g], o.run(base, dataOf(g)))
+		}
+	}
+	if ot := load(other); ot != nil {
+		ot.String("bad", dataOf(0))
+		ot.String("ok", dataOf(0))
+	}
+	tpl := load(mine)
+	if tpl == nil {
+		return
+	}
+	got := make([][]string, G)
+	var wg sync.WaitGroup
+	start := make(chan struct{})
+	for g := 0; g < G; g++ {
+		wg.Add(1)
+		go func(g int) {
+			defer wg.Done()
+			d := dataOf(g)
+			<-start
+			for n := 0; n < 6; n++ {
+				for _, o := range ops {
+					got[g] = append(got[g], o.run(tpl, d))
+				}
+			}
+		}(g)
+	}
+	close(start)
+	wg.Wait()
+	for g := 0; g < G; g++ {
+		for k, res := range got[g] {
+			if w := want[g][k%len(ops)]; res != w {
+				c.Violation("concurrent:fresh-load:"+ops[k%len(ops)].name, fmt.Sprintf("one of the first renders after loading %q (the tree in %q was loaded and used just before) returned\n%s\nalone it returns\n%s", mine, other, clipS(res, 400), clipS(w, 400)), map[string]any{"round": round})
+				return
+			}
+		}
+	}
+	c.Eval(G * 6 * len(ops))
+	c.Count("fresh_load_concurrent_calls", G*6*len(ops))
 }
 
 // coldBurst issues the first string-API calls of the process from many goroutines at once and
